@@ -15,7 +15,7 @@ DEMOPATH=$(head -1 $SRC/demo_path.txt | tr -d ' \r')
 cp $SRC/demo_test.go.txt $WT/$DEMOPATH
 PKG=./$(dirname $DEMOPATH)
 cd $WT
-RUNPAT=$(grep -o 'func Test[A-Za-z0-9_]*' $DEMOPATH | head -1 | sed 's/func //')
+RUNPAT=TestSeedDemo
 echo "== demo without patch ($PKG $RUNPAT)"
 go test -p 8 -vet=off -count=1 -run "$RUNPAT" $PKG > /root/scratch/h_$PID$VAR.clean.log 2>&1; CLEAN=$?
 git apply $SRC/patch.diff || { echo "patch does not apply"; exit 2; }
